@@ -230,6 +230,11 @@ def roundtrip_item(item):
                 idx = [i for i in range(n) if mask >> i & 1]
                 sub = [elems[i] for i in idx]
                 out["obligations"] += 2
+                try:
+                    SS.mask_from_subseq(sub, elems), SS.subseq_from_mask(mask, elems)
+                except Exception as e:
+                    out["violations"].append(_rt_violation(n, mask, ctx.model_values(), f"exception {type(e).__name__}: {e}"))
+                    break
                 got_mask = SS.mask_from_subseq(sub, elems)
                 if got_mask == mask:
                     out["discharged"] += 1
@@ -269,6 +274,10 @@ def _rt_concrete(n, mask, vals, seq=None):
     seq = [vals[f"e{i}"] for i in range(n)] if seq is None else list(seq)
     sub = [seq[i] for i in range(n) if mask >> i & 1]
     fails = []
+    try:
+        SS.mask_from_subseq(sub, seq), SS.subseq_from_mask(mask, seq)
+    except Exception as e:
+        return [f"exception {type(e).__name__}: {e} for mask {mask} on {seq}"]
     if SS.mask_from_subseq(sub, seq) != mask:
         fails.append(f"mask_from_subseq({sub}, {seq}) = {SS.mask_from_subseq(sub, seq)} != {mask}")
     first = SS.subseq_from_mask(mask, seq)
